@@ -16,7 +16,9 @@ RULE = ("entry point {OVF, VBox, PVS, Parallels DiskDescriptor via HDD(path)} x 
         "{small, > 64 KiB, > 256 KiB} x hostile family {internal general entity, nested "
         "entity chain ('laughs' shape, factor 10 per level), external general entity file:// and http://127.0.0.1:<closed>, "
         "internal / external parameter entity, external DTD subset without entity declarations, DOCTYPE without declarations, "
-        "plain} x nesting depth 1..6 x reference site {text, attribute, unused}. Oracle: a document that declares an entity is "
+        "plain} x nesting depth 1..6 x reference site {text, attribute, unused}; every sequence of two documents over entry point x "
+        "{plain, reference to an undeclared entity, internal, nested, external} and every triple over {PVS, HDD, OVF} x {plain, "
+        "undeclared reference, nested}, descriptors at one path also with identical size and timestamps. Oracle: a document that declares an entity is "
         "refused (any exception) and neither the canary file nor any socket / urllib event is seen; documents without entity "
         "declarations parse to the same disk list as the plain document. non-trivial = document that declares an entity")
 ASSUMPTIONS = [
@@ -34,11 +36,31 @@ FAMILIES = ["internal", "laughs", "external-file", "external-http", "param-inter
 SITES = ["text", "attribute", "unused"]
 
 
+SEQ_KINDS = ["plain", "undeclared-reference", "internal", "laughs", "external-file"]
+
+
 def shards(tier):
-    return [{"entry": e} for e in ENTRY]
+    return [{"entry": e} for e in ENTRY] + [{"seq": "pairs", "slice": [i, 4]} for i in range(4)] + \
+        [{"seq": "triples", "slice": [i, 4]} for i in range(4)]
 
 
 def run_shard(shard, ctx):
+    if "seq" in shard:
+        # Shape B: sequences of documents handed to objects of any of the four classes in one process: what an earlier
+        # document did (even one that failed) must not change how a later one is treated
+        steps = [(e, k) for e in ENTRY for k in SEQ_KINDS]
+        if shard["seq"] == "pairs":
+            space = itertools.product(steps, repeat=2)
+        else:
+            sub = [(e, k) for e in ("pvs", "hdd", "ovf") for k in ("plain", "undeclared-reference", "laughs")]
+            space = itertools.product(sub, repeat=3)
+        i, k = shard["slice"]
+        for n, seq in enumerate(space):
+            if n % k != i:
+                continue
+            for samestat in ((False, True) if sum(1 for e, _ in seq if e == "hdd") >= 2 else (False,)):
+                run_case({"sequence": [list(x) for x in seq], "samestat": samestat}, ctx)
+        return
     for fam in FAMILIES:
         depths = range(1, 7) if fam in ("laughs", "internal", "param-internal") else (1,)
         for depth in depths:
@@ -117,7 +139,7 @@ def _document(entry, fam, depth, site, canary):
     return head + body, expect
 
 
-def _parse(entry, doc, d, handle="text", encoding=None):
+def _parse(entry, doc, d, handle="text", encoding=None, fixed_stat=False):
     if handle == "text":
         fh = io.StringIO(doc)
     elif encoding is None:
@@ -145,11 +167,75 @@ def _parse(entry, doc, d, handle="text", encoding=None):
     os.makedirs(hd, exist_ok=True)
     with open(os.path.join(hd, "DiskDescriptor.xml"), "w") as f:
         f.write(doc)
+    if fixed_stat:
+        os.utime(os.path.join(hd, "DiskDescriptor.xml"), ns=(1_700_000_000_000_000_000, 1_700_000_000_000_000_000))
     h = HDD(Path(hd))
     return [(s.start, s.end) for s in h.descriptor.storage_data.storages]
 
 
+def _run_sequence(case, ctx):
+    ctx.executions += 1
+    ctx.model(case)
+    ctx.sample(case)
+    ctx.nontrivial += 1
+    with scratch_dir() as d:
+        canary = os.path.join(d, "canary-secret")
+        for p in (canary, canary + ".dtd"):
+            with open(p, "w") as f:
+                f.write('<!ENTITY g "leaked">' if p.endswith(".dtd") else "TOP-SECRET")
+        docs = []
+        for entry, kind in case["sequence"]:
+            if kind == "undeclared-reference":
+                doc, expect = _document(entry, "plain", 1, "text", canary)
+                # a reference to an entity nobody declared (e.g. an HTML name): no declaration anywhere in the document
+                doc = doc.replace("</", "&nbsp;</", 1)
+            else:
+                doc, expect = _document(entry, kind, 2, "text", canary)
+            docs.append([entry, kind, doc, expect])
+        if case.get("samestat"):
+            # every DiskDescriptor.xml of the sequence has the same byte size and the same timestamps
+            n = max(len(x[2].encode()) for x in docs if x[0] == "hdd") + 8
+            for x in docs:
+                if x[0] == "hdd":
+                    cut = x[2].rindex("</")
+                    x[2] = x[2][:cut] + "<!--" + "p" * (n - len(x[2].encode()) - 7) + "-->" + x[2][cut:]
+                    assert len(x[2].encode()) == n
+        for step, (entry, kind, doc, expect) in enumerate(docs):
+            ctx.transitions += 1
+            ctx.states += 1
+            result = exc = None
+            sub = dict(case, step=step)
+            with ctx.watch(sub, 120):
+                with monitors.armed() as events:
+                    try:
+                        result = _parse(entry, doc, d, "text", None, fixed_stat=case.get("samestat"))
+                    except Exception as e:
+                        exc = e
+                evs = list(events)
+            bad = [e for e in evs if monitors.classify(e) == "network" or (e[0] == "open" and e[1] and isinstance(e[1][0], str)
+                                                                           and "canary" in e[1][0])]
+            if bad:
+                ctx.violation(sub, {"subject": f"xml.sequence.{entry}", "kind": "external-access", "family": kind, "step": step},
+                              {"events": [repr(e)[:200] for e in bad[:3]]})
+                return
+            if kind in ("internal", "laughs", "external-file"):
+                if exc is None:
+                    ctx.violation(sub, {"subject": f"xml.sequence.{entry}", "kind": "entity-declaration-accepted", "family": kind,
+                                        "after": ["%s:%s" % (e, k) for e, k in case["sequence"][:step]]}, {"result": repr(result)[:200], "step": step})
+                    return
+                ctx.outcome("refused")
+            elif kind == "plain":
+                if exc is not None or result != expect:
+                    ctx.violation(sub, {"subject": f"xml.sequence.{entry}", "kind": "benign-document-misparsed",
+                                        "after": ["%s:%s" % (e, k) for e, k in case["sequence"][:step]]},
+                                  {"exception": repr(exc)[:200], "result": repr(result)[:200], "expected": repr(expect), "step": step})
+                    return
+                ctx.outcome("parsed")
+
+
 def run_case(case, ctx):
+    if "sequence" in case:
+        return _run_sequence(case, ctx)
     entry, fam, depth, site = case["entry"], case["family"], case["depth"], case["site"]
     ctx.executions += 1
     ctx.model(case)
